@@ -16,6 +16,8 @@ import (
 	"go.starlark.net/starlark"
 	"go.starlark.net/starlarkstruct"
 	"go.starlark.net/syntax"
+
+	"verif/internal/fw"
 )
 
 const defaultMaxStack = 1000000000
@@ -77,7 +79,11 @@ func joinTokens(al []string, toks []int) string {
 
 // textLevel enumerates every token string of exactly length n (n == 1 also
 // includes the empty text) under every option vector in opts.
-func (w *wk) textLevel(n int, full bool, opts []int) {
+func (w *wk) textLevel(n int, full bool, opts []int) { w.textLevelVia(n, full, opts, []string{""}) }
+
+var otherEntries = []string{"eval", "exprfunc", "repl"}
+
+func (w *wk) textLevelVia(n int, full bool, opts []int, entries []string) {
 	al := alphabet(!full)
 	if w.c.Shard == 0 && w.resumeIdx < 0 {
 		w.st.Count(fmt.Sprintf("text_alphabet_size_at_length_%d", n), int64(len(al)))
@@ -90,22 +96,24 @@ func (w *wk) textLevel(n int, full bool, opts []int) {
 	if n == 1 {
 		total++
 	}
-	total *= int64(len(opts))
+	total *= int64(len(opts) * len(entries))
 	if w.skipBlock(total) {
 		return
 	}
 	toks := make([]int, n)
 	emit := func(k int) {
 		for _, o := range opts {
-			if !w.takeIdx() {
-				continue
+			for _, en := range entries {
+				if !w.takeIdx() {
+					continue
+				}
+				cs := &Case{F: "text", Src: []byte(joinTokens(al, toks[:k])), Opt: o, Entry: en}
+				if !w.begin(cs) {
+					continue
+				}
+				w.execText(cs)
+				w.end()
 			}
-			cs := &Case{F: "text", Src: []byte(joinTokens(al, toks[:k])), Opt: o}
-			if !w.begin(cs) {
-				continue
-			}
-			w.execText(cs)
-			w.end()
 		}
 	}
 	if n == 1 {
@@ -142,13 +150,44 @@ func (w *wk) predeclared() starlark.StringDict {
 	}
 }
 
+func entryName(e string) string {
+	switch e {
+	case "eval":
+		return "EvalOptions"
+	case "exprfunc":
+		return "ExprFuncOptions + Call"
+	case "repl":
+		return "FileOptions.Parse + ExecREPLChunk"
+	}
+	return "ExecFileOptions"
+}
+
 // runSource parses, resolves, compiles and executes src and judges the ending.
 func (w *wk) runSource(cs *Case, src string, budget int, outcomePrefix string) {
 	callback := cs.Opt&1 != 0
 	th := newThread(budget, callback)
 	var err error
 	pm, where := guard(func() {
-		_, err = starlark.ExecFileOptions(fileOptions(cs.Opt), th, "c02.star", src, w.predeclared())
+		switch cs.Entry {
+		case "":
+			_, err = starlark.ExecFileOptions(fileOptions(cs.Opt), th, "c02.star", src, w.predeclared())
+		case "eval":
+			_, err = starlark.EvalOptions(fileOptions(cs.Opt), th, "c02.star", src, w.predeclared())
+		case "exprfunc":
+			var fn *starlark.Function
+			fn, err = starlark.ExprFuncOptions(fileOptions(cs.Opt), "c02.star", src, w.predeclared())
+			if err == nil {
+				_, err = starlark.Call(th, fn, nil, nil)
+			}
+		case "repl":
+			var f *syntax.File
+			f, err = fileOptions(cs.Opt).Parse("c02.star", src, 0)
+			if err == nil {
+				err = starlark.ExecREPLChunk(f, th, w.predeclared())
+			}
+		default:
+			fw.Fatal("unknown entry point %q", cs.Entry)
+		}
 	})
 	steps := th.ExecutionSteps()
 	if pm != "" {
@@ -157,7 +196,7 @@ func (w *wk) runSource(cs *Case, src string, budget int, outcomePrefix string) {
 			w.violate(cs, "ran past step budget", fmt.Sprintf("the interpreter kept executing after the step limit cancelled the thread: the limit test fired %d more times (budget %d, ExecutionSteps()=%d)", onMaxStepsLimit, budget, steps))
 			return
 		}
-		w.violate(cs, "panic "+normPanic(pm), fmt.Sprintf("Go panic escaped from ExecFileOptions: %s (innermost starlark-go frame: %s)", pm, where))
+		w.violate(cs, "panic "+normPanic(pm), fmt.Sprintf("Go panic escaped from the entry point ("+entryName(cs.Entry)+"): %s (innermost starlark-go frame: %s)", pm, where))
 		return
 	}
 	if steps > uint64(budget+stepSlack) {
